@@ -142,7 +142,7 @@ impl Prop for C20 {
     }
     fn runs(&self, tier: Tier) -> u64 {
         match tier {
-            Tier::Quick => 5000,
+            Tier::Quick => 20_000,
             Tier::Thorough => 150_000,
         }
     }
